@@ -2,7 +2,8 @@
    Proofs.v / MGProofs.v and followed by Print Assumptions.  Arithmetic is exact
    (Qc, the ordered field of canonical rationals; every binary64 input is such a number). *)
 From Coq Require Import QArith Qcanon List Arith Bool ZArith.
-From Verif.C11 Require Import Spec Algebra Model Proofs MGProofs.
+From Verif.C11 Require Import Spec Algebra Model Proofs MGProofs MGEnergy SmoothSets.
+From Verif.C04 Require Model Boundary.
 Import ListNotations.
 Open Scope Qc_scope.
 
@@ -55,6 +56,45 @@ Theorem gs_zero_diagonal_skipped : forall M n b x i,
   wf_row n i (row_entries M i) -> entry M i i = 0 -> gs_row M b x i = x.
 Proof. exact gs_row_skip. Qed.
 Print Assumptions gs_zero_diagonal_skipped.
+
+(* Non-canonical CSR (outside the property's quantifier, stated to make the boundary of
+   gs_textbook explicit).  For ANY row with column indices in range the routine computes
+   x_i := (b_i - sum_{j<>i} a_ij x_j) / d with a_ij the DENOTED off-diagonal entries (repeated
+   coordinates summed) and d the LAST stored diagonal entry (rows with d = 0 are skipped) ... *)
+Theorem gs_row_noncanonical : forall M n b x i,
+  (forall c a, In (c, a) (row_entries M i) -> (c < n)%nat) ->
+  gs_row M b x i =
+    let d := last_diag i (row_entries M i) 0 in
+    if Qc_eq_dec d 0 then x
+    else upd i ((vget b i - sum_skip n i (fun j => entry M i j * vget x j)) / d) x.
+Proof. exact gs_row_general_l. Qed.
+Print Assumptions gs_row_noncanonical.
+
+(* ... where the last stored diagonal entry is the a of the decomposition
+   row = pre ++ (i,a) :: post with no diagonal entry in post, whatever pre contains ... *)
+Theorem gs_duplicate_diagonal_uses_last : forall M n b x i pre a post,
+  row_entries M i = pre ++ (i, a) :: post -> diag_count i post = O -> a <> 0 ->
+  (forall c v, In (c, v) (row_entries M i) -> (c < n)%nat) ->
+  gs_row M b x i = upd i ((vget b i - sum_skip n i (fun j => entry M i j * vget x j)) / a) x.
+Proof. exact gs_row_last_diagonal_l. Qed.
+Print Assumptions gs_duplicate_diagonal_uses_last.
+
+(* ... while the denoted diagonal value is a plus the diagonal entries stored before it: the
+   update is the textbook one exactly when those earlier entries sum to zero ... *)
+Theorem gs_duplicate_diagonal_denoted_value : forall M i pre a post,
+  row_entries M i = pre ++ (i, a) :: post -> diag_count i post = O ->
+  entry M i i = ent_sum pre i + a.
+Proof. exact gs_row_last_diagonal_textbook_iff_l. Qed.
+Print Assumptions gs_duplicate_diagonal_denoted_value.
+
+(* ... and it does differ: a CSR with two stored diagonal entries on which the routine is
+   not the textbook update of the denoted matrix (gs_textbook's hypothesis cannot be dropped). *)
+Theorem gs_duplicate_diagonal_refuted :
+  exists M n b x i,
+    (forall c a, In (c, a) (row_entries M i) -> (c < n)%nat) /\ entry M i i <> 0 /\
+    gs_row M b x i <> tb_row n (entry M) b x i.
+Proof. exact gs_duplicate_diagonal_refuted_l. Qed.
+Print Assumptions gs_duplicate_diagonal_refuted.
 
 (* An exact solution (of the relaxed rows) is left unchanged: sparse and dense. *)
 Theorem gs_fixed_point : forall M N xs b iterations indices sw,
@@ -138,22 +178,64 @@ Theorem mg_fixed_point_one_level : forall sm steps ind0 B0 x f,
 Proof. exact mg_one_level_l. Qed.
 Print Assumptions mg_fixed_point_one_level.
 
-(* NOT PROVED (full statement mg_exact_energy_monotone): for symmetric positive semi-definite A,
-   smoother = exact and sub-solvers B_l with (A_l)_{II} (B_l r) = r, every cycle satisfies
-     energy n A xs (vget (mg_step SmExact steps ind0 B0 levels x f)) <= energy n A xs (vget x)
-   for every number of levels.  Missing: the algebra of the Galerkin product on list matrices,
-   J_l(x + P y) = J_l(x) + J_{l-1}(y; P^T (f - A x)) with J(x) = x^T A x - 2 x^T f, which turns the
-   statement into an induction over the levels (each exact solve lowers J by the lemma below and
-   the coarse cycle started from 0 lowers J_{l-1} from 0).  Proved instead: every single exact
-   subspace solve of the cycle (pre-smoothing on lv_inds[l], coarsest solve) is a correction d
-   with (A d)_k = (b - A x)_k on its support and therefore does not increase the energy.  The
-   full statement is evaluated on the implementation on every run (exact smoother, 3 cycles). *)
-Theorem mg_exact_energy_monotone_partial : forall n A b xs x d,
+(* The cycle with exact subspace solves (smoother = exact) never increases the energy, for
+   every number of levels >= 2, every number of smoothing steps, every prolongators.
+   Hypotheses [goodE]: the operators of the coarser levels are the Galerkin products
+   (P^T A) P as local_mg_step computes them, dimensions fit, the smoothing sets are
+   repetition-free index lists in range, and each sub-solver B satisfies make_solver's contract
+   A[idx][:,idx] (B r) = r.  A is symmetric positive semi-definite (dsym, dpsd).
+   J form (no exact solution needed): J(x) = x^T A x - 2 x^T f. *)
+Theorem mg_exact_J_monotone : forall steps ind0 B0 L rest n A x f,
+  goodE ind0 B0 n A (L :: rest) -> dsym n A -> dpsd n A -> length x = n -> length f = n ->
+  Jl A f (mg_step SmExact steps ind0 B0 (L :: rest) x f) <= Jl A f x.
+Proof. exact mg_exact_J_monotone_l. Qed.
+Print Assumptions mg_exact_J_monotone.
+
+(* energy-norm error form, xs an exact solution of the whole system *)
+Theorem mg_exact_energy_monotone : forall steps ind0 B0 L rest n A x f xs,
+  goodE ind0 B0 n A (L :: rest) -> dsym n A -> dpsd n A ->
+  length x = n -> length f = n -> length xs = n -> dmv A xs = f ->
+  energy n (dentry A) (vget xs) (vget (mg_step SmExact steps ind0 B0 (L :: rest) x f))
+  <= energy n (dentry A) (vget xs) (vget x).
+Proof. exact mg_exact_energy_monotone_l. Qed.
+Print Assumptions mg_exact_energy_monotone.
+
+(* the same when xs solves only the unconstrained rows (Dirichlet dofs kept in the matrix, as
+   solve_hmultigrid does) and the iterate vanishes on the other rows before and after the cycle *)
+Theorem mg_exact_energy_monotone_dirichlet : forall steps ind0 B0 L rest n A x f xs,
+  goodE ind0 B0 n A (L :: rest) -> dsym n A -> dpsd n A ->
+  length x = n -> length f = n ->
+  let y := mg_step SmExact steps ind0 B0 (L :: rest) x f in
+  (forall k, (k < n)%nat -> vget x k = 0 \/ mv n (dentry A) (vget xs) k = vget f k) ->
+  (forall k, (k < n)%nat -> vget y k = 0 \/ mv n (dentry A) (vget xs) k = vget f k) ->
+  energy n (dentry A) (vget xs) (vget y) <= energy n (dentry A) (vget xs) (vget x).
+Proof. exact mg_exact_energy_monotone_dirichlet_l. Qed.
+Print Assumptions mg_exact_energy_monotone_dirichlet.
+
+(* the list-matrix algebra behind it: the operator local_mg_step forms, dmm (dmm (dtrans P) A) P,
+   has the entries of P^T A P, is symmetric / positive semi-definite with A, and the coarse-grid
+   correction splits J: J(x + P y) = J(x) + J_c(y) with the restricted residual as right-hand side *)
+Theorem galerkin_product_entries : forall P A n nc a b,
+  wfmat P n nc -> wfmat A n n -> (a < nc)%nat -> (b < nc)%nat ->
+  dentry (galerkin P A) a b = fgal n (dentry P) (dentry A) a b.
+Proof. exact dentry_galerkin. Qed.
+Print Assumptions galerkin_product_entries.
+
+Theorem coarse_correction_splits_J : forall A P n nc x f y,
+  wfmat A n n -> wfmat P n nc -> dsym n A -> length x = n -> length f = n -> length y = nc ->
+  Jl A f (vadd x (dmv P y)) =
+  Jl A f x + Jl (galerkin P A) (dmv (dtrans P) (vsub f (dmv A x))) y.
+Proof. exact coarse_correction_J. Qed.
+Print Assumptions coarse_correction_splits_J.
+
+(* a single exact subspace solve, in energy form (function level) *)
+Theorem exact_subspace_solve_energy : forall n A b xs x d,
   symmetric n A -> psd n A ->
   (forall k, (k < n)%nat -> d k = 0 \/ (mv n A d k = b k - mv n A x k /\ mv n A xs k = b k)) ->
   energy n A xs (fun k => x k + d k) <= energy n A xs x.
 Proof. exact exact_correction_energy. Qed.
-Print Assumptions mg_exact_energy_monotone_partial.
+Print Assumptions exact_subspace_solve_energy.
+
 
 (* iterative_solve (and with it solve_hmultigrid, which calls it with the local
    multigrid cycle as `step`) returns (x, k) only when x is the k-th iterate, the
@@ -189,15 +271,42 @@ Theorem twogrid_accepts_u0_and_stops : forall (X : Type) (smooth : X -> X) (res 
 Proof. exact @twogrid_stops_l. Qed.
 Print Assumptions twogrid_accepts_u0_and_stops.
 
-(* Smoothing sets, at the level of sets of functions: for every strategy, disparity,
-   sets act/deact of the level, candidate set F (whatever the strategy computes) and
-   Dirichlet set: no Dirichlet function is smoothed, every non-Dirichlet function new
-   on the level is, and nothing else than new functions and candidates is.
-   NOT PROVED (full statement smoothing_sets_spec): for every HSpace reachable by
-   refinements the canonical indices returned by indices_to_smooth(strategy)[lv] are
-   valid indices of virtual level lv, contain the new dofs and no Dirichlet dof.
-   Missing: a model of HSpace states and of raveled_to_virtual_canonical_indices
-   (property C04); the full statement is evaluated on the implementation on every run. *)
+(* Smoothing sets on the C04 model of HSpace (coq/C04/Model.v, Boundary.v: new_indices,
+   cell_supp_indices, _dirichlet_indices, global_indices, raveled_to_virtual_canonical_indices
+   with _position_index).  For EVERY hspace state st (no invariant needed), boundary
+   specification, virtual level lv and both modelled strategies: whenever indices_to_smooth
+   returns (Some S; None models the ValueError of list.index), every index of S is a valid
+   position of the level's dof list vflat, none of them is a Dirichlet dof, and every function
+   new on the level (active or deactivated on level lv) that is not on the Dirichlet boundary
+   occupies a position that is in S. *)
+Theorem smoothing_sets_spec : forall st bds lv S,
+  (Boundary.smooth_new st bds lv = Some S \/ Boundary.smooth_cell_supp st bds lv = Some S) ->
+  (forall p, In p S -> (p < length (vflat st lv))%nat) /\
+  (forall D, Boundary.dirichlet_dofs st bds lv = Some D -> forall p, In p S -> ~ In p D) /\
+  ((lv < Model.numlevels st)%nat ->
+   forall x, (In x (Model.lv_actfun (Model.lvl st lv)) \/ In x (Model.lv_deactfun (Model.lvl st lv))) ->
+             ~ In x (Boundary.index_dirichlet st bds lv lv) ->
+   exists p, In p S /\ nth_error (vflat st lv) p = Some (lv, x)).
+Proof. exact smoothing_sets_spec_l. Qed.
+Print Assumptions smoothing_sets_spec.
+
+(* dirichlet_dofs(lv) are positions holding functions of the Dirichlet index sets *)
+Theorem dirichlet_dofs_spec : forall st bds lv D, Boundary.dirichlet_dofs st bds lv = Some D ->
+  forall p, In p D -> exists l x, nth_error (vflat st lv) p = Some (l, x) /\
+                                   In x (Boundary.index_dirichlet st bds lv l).
+Proof. exact dirichlet_dofs_spec_l. Qed.
+Print Assumptions dirichlet_dofs_spec.
+
+(* The strategies trunc and func_supp are not in the C04 model (they need the sparsity pattern
+   of the prolongation matrices); for them, and for any strategy, the set-level statement:
+   for every disparity, sets act/deact of the level, candidate set F (whatever the strategy
+   computes) and Dirichlet set: no Dirichlet function is smoothed, every non-Dirichlet function
+   new on the level is, and nothing else than new functions and candidates is.
+   NOT PROVED: (1) the canonical-index statement for trunc / func_supp (missing: a model of
+   HMesh.function_children / function_grandparents); (2) that the position search succeeds
+   (Some) and that the position of a dof is unique, on reachable states (missing: sortedness /
+   disjointness of actfun and deactfun, C04's funcs_inv, carried through global_indices).
+   All four strategies are evaluated on the implementation on every run. *)
 Theorem smoothing_sets_spec_partial : forall st disp act deact F dir lv,
   (forall i k, In k (smoothing_set st disp act deact F dir lv i) -> ~ In k dir) /\
   (forall k, In k act \/ In k deact -> ~ In k dir -> In k (smoothing_set st disp act deact F dir lv lv)) /\
